@@ -52,11 +52,15 @@ type c30Case struct {
 
 type c30NetConn struct{}
 
-func (c *c30NetConn) Read([]byte) (int, error)         { return 0, io.EOF }
-func (c *c30NetConn) Write(b []byte) (int, error)      { return len(b), nil }
-func (c *c30NetConn) Close() error                     { return nil }
-func (c *c30NetConn) LocalAddr() net.Addr              { return &net.TCPAddr{IP: net.IPv4(127, 0, 0, 1), Port: 25565} }
-func (c *c30NetConn) RemoteAddr() net.Addr             { return &net.TCPAddr{IP: net.IPv4(127, 0, 0, 1), Port: 40001} }
+func (c *c30NetConn) Read([]byte) (int, error)    { return 0, io.EOF }
+func (c *c30NetConn) Write(b []byte) (int, error) { return len(b), nil }
+func (c *c30NetConn) Close() error                { return nil }
+func (c *c30NetConn) LocalAddr() net.Addr {
+	return &net.TCPAddr{IP: net.IPv4(127, 0, 0, 1), Port: 25565}
+}
+func (c *c30NetConn) RemoteAddr() net.Addr {
+	return &net.TCPAddr{IP: net.IPv4(127, 0, 0, 1), Port: 40001}
+}
 func (c *c30NetConn) SetDeadline(time.Time) error      { return nil }
 func (c *c30NetConn) SetReadDeadline(time.Time) error  { return nil }
 func (c *c30NetConn) SetWriteDeadline(time.Time) error { return nil }
